@@ -5,8 +5,8 @@
    normalising encoder whose laws (re-encoding a decoded value gives an equivalent word; the error of encoding an
    in-range number is below one part in 2^22) are checked here on a lattice.
 
-   Not specified here (see DESIGN.md): LIS code 50 with a negative exponent field and the RP66V1 VSINGL value
-   formula - the sources available offline disagree - and FDOUBL (64 bits of fraction do not fit). *)
+   Not specified here (see DESIGN.md): LIS code 50 with a negative exponent field and FDOUBL (64 bits of fraction do not
+   fit).  RP66V1 VSINGL is specified in BOTH readings the offline sources support (see DecVsingl). *)
 EXTENDS Integers, Sequences, FiniteSets, TLC
 
 P2(n) == 2 ^ n
@@ -46,6 +46,18 @@ DecFsingl(hi, lo) == LET s == hi \div 32768 E == (hi \div 128) % 256 f == (hi % 
 (* ISINGL: IBM single: sign, 7-bit excess-64 base-16 exponent, 24-bit fraction *)
 DecIsingl(hi, lo) == LET s == hi \div 32768 E == (hi \div 256) % 128 f == (hi % 256) * 65536 + lo
                      IN D(IF s = 1 THEN -f ELSE f, 4 * (E - 64) - 24)
+(* VSINGL: VAX F-floating in RP66V1 byte order b0 b1 b2 b3:  S = b1 bit 7,  E = (b1 mod 128) * 2 + b0 bit 7,
+   fraction field F (23 bits) = (b0 mod 128) : b3 : b2.  S = 0, E = 0 is zero (S = 1, E = 0 is a reserved operand: not
+   tabulated).  Any other pattern is  (-1)^S * (1/2 + F * 2^-kbits) * 2^(E - 128)  where the sources available offline
+   disagree on kbits: the VAX architecture (hidden-bit fraction 0.1F) has kbits = 24; the implementation and its test
+   vectors, quoted from RP66V2 11.3.23 (0C 44 00 80 = 153), have kbits = 23.  Both readings are tabulated; an implementation
+   must follow ONE of them on every pattern, which still fixes zero, sign, the exponent law and every fraction bit. *)
+VsS(b1) == b1 \div 128
+VsE(b0, b1) == (b1 % 128) * 2 + b0 \div 128
+VsF(b0, b2, b3) == (b0 % 128) * 65536 + b3 * 256 + b2
+DecVsingl(b0, b1, b2, b3, kbits) ==
+    IF VsE(b0, b1) = 0 /\ VsS(b1) = 0 THEN D(0, 0)
+    ELSE LET m == P2(kbits - 1) + VsF(b0, b2, b3) IN D(IF VsS(b1) = 1 THEN -m ELSE m, VsE(b0, b1) - 128 - kbits)
 DecSshort(b) == D(S8(b), 0)
 DecSnorm(w) == D(S16(w), 0)
 DecSlong(hi, lo) == D(S16(hi) * 65536 + lo, 0)
